@@ -1,9 +1,8 @@
 (* C17 — lemmas about the matcher model.  Facts about the source are hypotheses
    (discharged against Tables.v in Obligations.v). *)
 From Coq Require Import Permutation.
-From G17 Require Import Model.
+From G17 Require Import Model Fragment.
 
-Definition compiles (r : rx) : bool := match compile_top r with Ok _ => true | _ => false end.
 
 Definition get_re (r : rx) : rre := match compile_top r with Ok a => a | _ => RFail end.
 
@@ -64,3 +63,323 @@ Proof. intros H Hn E. subst. apply Permutation_sym, Permutation_nil in H. contra
 Lemma existsb_replace {A} (f : A -> bool) l1 l2 x y :
   f x = f y -> existsb f (l1 ++ x :: l2) = existsb f (l1 ++ y :: l2).
 Proof. intro E. rewrite !existsb_app. simpl. rewrite E. reflexivity. Qed.
+
+(* ------------------------------------------------------------------ joining is text concatenation *)
+Lemma show_app a c : show (a ++ c) = show a ++ show c.
+Proof. apply flat_map_app. Qed.
+
+Lemma show_join_bar rules : show (join_bar rules) = join [124] (map show rules).
+Proof.
+  induction rules as [|x r IH]; [reflexivity|].
+  destruct r as [|y r']; [reflexivity|].
+  change (join_bar (x :: y :: r')) with (x ++ Bar :: join_bar (y :: r')).
+  rewrite show_app. change (show (Bar :: join_bar (y :: r'))) with ([124] ++ show (join_bar (y :: r'))).
+  rewrite IH. reflexivity.
+Qed.
+
+Lemma show_wrap r : show (wrap r) = b "(?:" ++ show r ++ b ")".
+Proof. unfold wrap, show. simpl. rewrite app_nil_r. reflexivity. Qed.
+
+(* ------------------------------------------------------------------ matcher algebra *)
+Lemma existsb_orb {A} (f g : A -> bool) l :
+  existsb (fun x => f x || g x) l = existsb f l || existsb g l.
+Proof.
+  induction l as [|x l IH]; simpl; [reflexivity|]. rewrite IH.
+  destruct (f x), (g x), (existsb f l), (existsb g l); reflexivity.
+Qed.
+
+Lemma existsb_ext_in' {A} (f g : A -> bool) l :
+  (forall x, In x l -> f x = g x) -> existsb f l = existsb g l.
+Proof.
+  induction l as [|x l IH]; intro H; simpl; [reflexivity|].
+  rewrite (H x (or_introl eq_refl)), IH; [reflexivity|]. intros y Hy. apply H. right. exact Hy.
+Qed.
+Lemma existsb_ext' {A} (f g : A -> bool) l : (forall x, f x = g x) -> existsb f l = existsb g l.
+Proof. intro H. apply existsb_ext_in'. intros x _. apply H. Qed.
+Lemma existsb_map' {A B} (h : A -> B) (f : B -> bool) l :
+  existsb f (map h l) = existsb (fun x => f (h x)) l.
+Proof. induction l; simpl; congruence. Qed.
+
+Lemma accepts_alt a c q : accepts_at (RAlt a c) q = accepts_at a q || accepts_at c q.
+Proof. unfold accepts_at. simpl. destruct (run a q); reflexivity. Qed.
+
+Lemma matches_alt a c s : matches (RAlt a c) s = matches a s || matches c s.
+Proof.
+  unfold matches. rewrite <- existsb_orb. apply existsb_ext'. intros q. apply accepts_alt.
+Qed.
+
+Lemma matches_fail s : matches RFail s = false.
+Proof. unfold matches. induction (positions None s); simpl; auto. Qed.
+
+Lemma matches_alt_of l s : matches (alt_of l) s = existsb (fun a => matches a s) l.
+Proof.
+  induction l as [|h t IH]; [apply matches_fail|].
+  destruct t as [|h' t'].
+  - simpl. rewrite orb_false_r. reflexivity.
+  - change (alt_of (h :: h' :: t')) with (RAlt h (alt_of (h' :: t'))).
+    rewrite matches_alt, IH. reflexivity.
+Qed.
+
+Lemma flat_map_single {A} (l : list A) : flat_map (fun x => [x]) l = l.
+Proof. induction l; simpl; congruence. Qed.
+
+Lemma matches_seq_eps a s : matches (RSeq a REps) s = matches a s.
+Proof.
+  unfold matches. apply existsb_ext'. intro q. unfold accepts_at. simpl.
+  rewrite flat_map_single. reflexivity.
+Qed.
+
+(* ------------------------------------------------------------------ the wrapped join *)
+Definition wrapped_alt (f : flags) (r : rx) : rre := RSeq (alt_of (pel f r)) REps.
+
+Lemma elab_wrapped rules :
+  forallb closed_rule rules = true -> rules <> [] ->
+  forall f k, elab f (join_bar (map wrap rules)) k = Ok (map (wrapped_alt f) rules).
+Proof.
+  induction rules as [|r t IH]; intros Hc Hn f k; [congruence|].
+  simpl in Hc. apply andb_true_iff in Hc as [Hr Ht].
+  destruct t as [|r' t'].
+  - unfold elab. cbn [map join_bar wrap elab_list elab_item].
+    fold (elab f r (41 :: show [] ++ k)). rewrite (elab_closed r Hr). reflexivity.
+  - change (join_bar (map wrap (r :: r' :: t'))) with (wrap r ++ Bar :: join_bar (map wrap (r' :: t'))).
+    unfold elab, wrap. cbn [app elab_list elab_item].
+    fold (elab f r (41 :: show (Bar :: join_bar (map wrap (r' :: t'))) ++ k)).
+    rewrite (elab_closed r Hr).
+    change (elab_list elab_item f (join_bar (map (fun r0 : rx => [Group NonCap r0]) (r' :: t'))) k)
+      with (elab f (join_bar (map wrap (r' :: t'))) k).
+    rewrite (IH Ht ltac:(discriminate) f k). reflexivity.
+Qed.
+
+Lemma alone_closed r s : closed_rule r = true -> alone r s = matches (alt_of (pel f0 r)) s.
+Proof. intro H. unfold alone, compile_top. rewrite (elab_closed r H). reflexivity. Qed.
+
+Lemma build_wrapped rules s :
+  empty_joined_is_nil = true -> forallb closed_rule rules = true ->
+  exists rs, build JoinWrapped rules = Ok rs /\ side_matches rs s = existsb (fun r => alone r s) rules.
+Proof.
+  intros Hnil Hc. destruct rules as [|r t].
+  - exists []. unfold build, joined. cbn [map join_bar show flat_map is_nil]. rewrite Hnil. split; reflexivity.
+  - unfold build, joined.
+    assert (Hs : is_nil (show (join_bar (map wrap (r :: t)))) = false).
+    { rewrite show_join_bar. cbn [map]. rewrite show_wrap. destruct (map show (map wrap t)); reflexivity. }
+    rewrite Hs, andb_false_r. unfold compile_top.
+    rewrite (elab_wrapped (r :: t) Hc ltac:(discriminate) f0 []).
+    eexists. split; [reflexivity|].
+    unfold side_matches. change (existsb (fun r1 => matches r1 s) [?x]) with (matches x s || false).
+    rewrite orb_false_r, matches_alt_of, existsb_map'.
+    apply existsb_ext_in'. intros x Hx. unfold wrapped_alt. rewrite matches_seq_eps.
+    symmetry. apply alone_closed.
+    apply (proj1 (forallb_forall _ _) Hc x Hx).
+Qed.
+
+Lemma wrapped_correct inc exc inv s :
+  inverse_toggles = true -> empty_joined_is_nil = true ->
+  inc <> [] -> forallb closed_rule inc = true -> forallb closed_rule exc = true ->
+  match_list JoinWrapped inc exc inv s =
+  Ans (if inverted inv then negb (union_minus inc exc s) else union_minus inc exc s).
+Proof.
+  intros Ht Hnil Hne Hi He. unfold match_list. destruct inc as [|r0 inc0]; [congruence|].
+  cbn [is_nil].
+  destruct (build_wrapped (r0 :: inc0) s Hnil Hi) as [ri [Ei Mi]].
+  destruct (build_wrapped exc s Hnil He) as [re [Ee Me]].
+  rewrite Ei, Ee, Mi, Me, Ht. unfold union_minus, inverted.
+  destruct (existsb (fun r => alone r s) exc); destruct (existsb (fun r => alone r s) (r0 :: inc0));
+    reflexivity.
+Qed.
+
+(* ------------------------------------------------------------------ witnesses against the joined shapes *)
+Definition L (s : string) : rx := map Lit (b s).
+Definition w_ifoo : rx := SetFlags (mkE On Keep Keep) :: L "foo".     (* (?i)foo *)
+Definition w_foo : rx := L "foo".
+Definition w_bar : rx := L "bar".
+Definition w_ma : rx := [SetFlags (mkE Keep On Keep); Bol; Lit 97; Eol].  (* (?m)^a$ *)
+Definition w_b : rx := [Bol; Lit 98; Eol].                              (* ^b$ *)
+Definition w_qfoo : rx := [Quote false (b "foo")].                      (* \Qfoo *)
+
+Lemma bare_flag_leak :
+  forallb rule_ok [w_ifoo; w_bar] = true /\
+  match_list JoinBare [w_ifoo; w_bar] [] 0 (b "BAR") = Ans true /\
+  union_minus [w_ifoo; w_bar] [] (b "BAR") = false.
+Proof. vm_compute. repeat split. Qed.
+
+Lemma bare_order_matters :
+  match_list JoinBare [w_ifoo; w_bar] [] 0 (b "BAR") = Ans true /\
+  match_list JoinBare [w_bar; w_ifoo] [] 0 (b "BAR") = Ans false.
+Proof. vm_compute. repeat split. Qed.
+
+Lemma bare_multiline_leak :
+  match_list JoinBare [w_ma; w_b] [] 0 [120; 10; 98] = Ans true /\
+  union_minus [w_ma; w_b] [] [120; 10; 98] = false.
+Proof. vm_compute. repeat split. Qed.
+
+(* replacing (?i)foo by foo — same verdict on "BAR" on their own — changes the list's answer *)
+Lemma bare_no_isolation :
+  alone w_ifoo (b "BAR") = alone w_foo (b "BAR") /\
+  match_list JoinBare [w_ifoo; w_bar] [] 0 (b "BAR") <> match_list JoinBare [w_foo; w_bar] [] 0 (b "BAR").
+Proof. vm_compute. split; [reflexivity|discriminate]. Qed.
+
+Lemma bare_open_quote :
+  forallb rule_ok [w_qfoo; w_bar] = true /\
+  match_list JoinBare [w_qfoo; w_bar] [] 0 (b "foo") = Ans false /\
+  match_list JoinBare [w_qfoo; w_bar] [] 0 (b "bar") = Ans false /\
+  union_minus [w_qfoo; w_bar] [] (b "foo") = true /\ union_minus [w_qfoo; w_bar] [] (b "bar") = true.
+Proof. vm_compute. repeat split. Qed.
+
+Lemma wrapped_open_quote_panics :
+  rule_ok w_qfoo = true /\ alone w_qfoo (b "foo") = true /\
+  match_list JoinWrapped [w_qfoo] [] 0 (b "foo") = Panic.
+Proof. vm_compute. repeat split. Qed.
+
+(* ------------------------------------------------------------------ entries with the '-' mark *)
+Lemma parse_entry_text e :
+  exclude_prefix = [45] -> has_prefix (show (snd e)) [45] = false ->
+  parse_entry (entry_text e) = (fst e, show (snd e)).
+Proof.
+  intros Hp Hn. unfold parse_entry, entry_text. rewrite Hp. destruct e as [[|] r]; cbn [fst snd] in *.
+  - reflexivity.
+  - cbn [app]. rewrite Hn. reflexivity.
+Qed.
+
+(* the text of an item never begins with '-' *)
+Lemma show_item_no_dash x : has_prefix (show_item x) [45] = false.
+Proof.
+  induction x using item_ind'; try reflexivity.
+  - (* Lit *) cbn [show_item]. unfold is_alpha, is_upper, is_lower, is_digit.
+    destruct (((65 <=? c) && (c <=? 90) || (97 <=? c) && (c <=? 122)) || (48 <=? c) && (c <=? 57)) eqn:E.
+    + cbn [has_prefix]. destruct (45 =? c) eqn:E2; [|reflexivity].
+      apply N.eqb_eq in E2. subst c. discriminate.
+    + destruct (c =? 10); reflexivity.
+  - (* Rep *) cbn [show_item]. destruct (show_item x) as [|d r]; [destruct k; reflexivity|].
+    cbn [app has_prefix] in *. exact IHx.
+Qed.
+
+Lemma show_item_nonempty x : show_item x <> [].
+Proof.
+  destruct x; cbn [show_item]; try discriminate.
+  - destruct (is_alpha c || is_digit c); [discriminate|]. destruct (c =? 10); discriminate.
+  - destruct (show_item x); discriminate.
+Qed.
+
+Lemma show_no_dash r : has_prefix (show r) [45] = false.
+Proof.
+  destruct r as [|x r]; [reflexivity|]. unfold show. cbn [flat_map].
+  pose proof (show_item_no_dash x) as H. pose proof (show_item_nonempty x) as Hn.
+  destruct (show_item x) as [|d t]; [contradiction|].
+  cbn [app has_prefix] in *. exact H.
+Qed.
+
+(* ParseRegexpListItem recovers the mark and the rule text from an entry's text *)
+Lemma parse_entry_roundtrip e :
+  exclude_prefix = [45] -> parse_entry (entry_text e) = (fst e, show (snd e)).
+Proof. intro Hp. apply parse_entry_text; [exact Hp | apply show_no_dash]. Qed.
+
+Lemma show_nil_iff r : show r = [] <-> r = [].
+Proof.
+  split; [|intros ->; reflexivity]. destruct r as [|x r]; [reflexivity|].
+  unfold show. cbn [flat_map]. pose proof (show_item_nonempty x).
+  destruct (show_item x); [contradiction|discriminate].
+Qed.
+
+(* ------------------------------------------------------------------ consequences, for any shape that meets the reference *)
+Definition meets_reference (sh : shape) : Prop :=
+  forall inc exc inv s,
+    inc <> [] -> forallb compiles inc = true -> forallb compiles exc = true ->
+    match_list sh inc exc inv s =
+    Ans (if inverted inv then negb (union_minus inc exc s) else union_minus inc exc s).
+
+Lemma app_cons_nonnil {A} (l1 : list A) x l2 : l1 ++ x :: l2 <> [].
+Proof. destruct l1; discriminate. Qed.
+
+Section AnyShape.
+  Variable sh : shape.
+  Hypothesis Hspec : meets_reference sh.
+
+  Lemma order_irrelevant inc inc' exc exc' inv s :
+    inc <> [] -> forallb compiles inc = true -> forallb compiles exc = true ->
+    Permutation inc inc' -> Permutation exc exc' ->
+    match_list sh inc exc inv s = match_list sh inc' exc' inv s.
+  Proof.
+    intros Hn Hi He Pi Pe.
+    rewrite (Hspec inc exc inv s Hn Hi He).
+    rewrite (Hspec inc' exc' inv s (perm_nonnil _ _ Pi Hn)).
+    - rewrite (union_minus_perm inc inc' exc exc' s Pi Pe). reflexivity.
+    - rewrite <- (forallb_perm _ _ _ Pi). exact Hi.
+    - rewrite <- (forallb_perm _ _ _ Pe). exact He.
+  Qed.
+
+  Lemma inverse_negates inc exc inv s :
+    inc <> [] -> forallb compiles inc = true -> forallb compiles exc = true ->
+    exists a, match_list sh inc exc inv s = Ans a /\ match_list sh inc exc (S inv) s = Ans (negb a).
+  Proof.
+    intros Hn Hi He. rewrite !(Hspec inc exc _ s Hn Hi He). unfold inverted.
+    rewrite Nat.odd_succ, <- Nat.negb_odd.
+    eexists. split; [reflexivity|]. destruct (Nat.odd inv); cbn [negb]; rewrite ?negb_involutive; reflexivity.
+  Qed.
+
+  Lemma forallb_replace l1 l2 (x y : rx) :
+    forallb compiles (l1 ++ x :: l2) = true -> compiles y = true -> forallb compiles (l1 ++ y :: l2) = true.
+  Proof.
+    rewrite !forallb_app. cbn [forallb]. intros H Hy.
+    apply andb_true_iff in H as [H1 H2]. apply andb_true_iff in H2 as [_ H2]. rewrite H1, Hy, H2. reflexivity.
+  Qed.
+
+  (* replacing an include rule by one with the same verdict of its own never changes the answer:
+     no rule's flags, anchors or alternations reach another rule *)
+  Lemma include_isolation l1 l2 r r' exc inv s :
+    forallb compiles (l1 ++ r :: l2) = true -> compiles r' = true -> forallb compiles exc = true ->
+    alone r s = alone r' s ->
+    match_list sh (l1 ++ r :: l2) exc inv s = match_list sh (l1 ++ r' :: l2) exc inv s.
+  Proof.
+    intros Hi Hr' He Ha.
+    rewrite (Hspec _ exc inv s (app_cons_nonnil _ _ _) Hi He).
+    rewrite (Hspec _ exc inv s (app_cons_nonnil _ _ _) (forallb_replace _ _ _ _ Hi Hr') He).
+    unfold union_minus. rewrite (existsb_replace (fun x => alone x s) l1 l2 r r' Ha). reflexivity.
+  Qed.
+
+  Lemma exclude_isolation inc l1 l2 r r' inv s :
+    inc <> [] -> forallb compiles inc = true ->
+    forallb compiles (l1 ++ r :: l2) = true -> compiles r' = true ->
+    alone r s = alone r' s ->
+    match_list sh inc (l1 ++ r :: l2) inv s = match_list sh inc (l1 ++ r' :: l2) inv s.
+  Proof.
+    intros Hn Hi He Hr' Ha.
+    rewrite (Hspec inc _ inv s Hn Hi He), (Hspec inc _ inv s Hn Hi (forallb_replace _ _ _ _ He Hr')).
+    unfold union_minus. rewrite (existsb_replace (fun x => alone x s) l1 l2 r r' Ha). reflexivity.
+  Qed.
+
+  (* lists of marked entries, as NewRegexpMatcherFromList receives them *)
+  Lemma existsb_filter_snd (p : bool * rx -> bool) (f : rx -> bool) l :
+    existsb f (map snd (filter p l)) = existsb (fun e => p e && f (snd e)) l.
+  Proof.
+    induction l as [|e l IH]; [reflexivity|]. cbn [filter]. destruct (p e) eqn:E; cbn [map existsb]; rewrite IH, ?E; reflexivity.
+  Qed.
+
+  Lemma forallb_filter_snd (p : bool * rx -> bool) (f : rx -> bool) l :
+    forallb (fun e => f (snd e)) l = true -> forallb f (map snd (filter p l)) = true.
+  Proof.
+    induction l as [|e l IH]; [reflexivity|]. cbn [forallb filter]. intro H.
+    apply andb_true_iff in H as [H1 H2]. destruct (p e); cbn [map forallb]; rewrite ?H1; auto.
+  Qed.
+
+  Definition entries_reference (l : list (bool * rx)) (s : str) : bool :=
+    existsb (fun e => negb (fst e) && alone (snd e) s) l && negb (existsb (fun e => fst e && alone (snd e) s) l).
+
+  Lemma entries_correct l inv s :
+    existsb (fun e => negb (fst e)) l = true -> forallb (fun e => compiles (snd e)) l = true ->
+    match_entries sh l inv s =
+    Ans (if inverted inv then negb (entries_reference l s) else entries_reference l s).
+  Proof.
+    intros Hinc Hc. unfold match_entries, partition_entries.
+    rewrite Hspec.
+    - unfold union_minus, entries_reference. rewrite !existsb_filter_snd. reflexivity.
+    - intro E. apply existsb_exists in Hinc as [e [He Hf]].
+      assert (In (snd e) (map snd (filter (fun e => negb (fst e)) l))) as Hin.
+      { apply in_map. apply filter_In. split; assumption. }
+      rewrite E in Hin. contradiction.
+    - apply forallb_filter_snd. exact Hc.
+    - apply forallb_filter_snd. exact Hc.
+  Qed.
+End AnyShape.
+
+Lemma per_rule_meets_reference : inverse_toggles = true -> meets_reference PerRule.
+Proof. intros Ht inc exc inv s. apply per_rule_correct. exact Ht. Qed.
